@@ -253,8 +253,66 @@ def run_ack_roleswap(case, P):
     return res
 
 
+def run_write_burst(case, P):
+    """the non-blocking entry point used the way its documentation describes: several write(buf, write_only=True) calls
+    fill the TX FIFO, then the application raises CE; every payload for which write() returned True must come out of the
+    peer's read(), in order, and the first three writes into an empty FIFO must be accepted; a second burst follows"""
+    res = Result()
+    lk = Link(case.get("drv", "full"), case.get("peer", "full"), mcu=case.get("mcu"))
+    sim, T, R, tx, rx = lk.sim, lk.T, lk.R, lk.tx, lk.rx
+    a = unhex(case["a0"])
+    dyn, L = case["dyn"], case["L"]
+    for r in (tx, rx):
+        r.channel = 76
+        r.dynamic_payloads = dyn
+        r.payload_length = L
+        if not case["aa"]:
+            r.auto_ack = False
+    rx.open_rx_pipe(1, a)
+    rx.listen = True
+    tx.open_tx_pipe(a)
+    tx.listen = False
+    sim.advance(500 * US)
+    sim.horizon = sim.now + 2000 * MS
+    try:
+        for rnd, k in enumerate(case["bursts"]):
+            accepted = []
+            for i in range(k):
+                pl = bytes([0x41 + 8 * rnd + i]) * case["lens"][(rnd * 7 + i) % len(case["lens"])]
+                r = tx.write(pl, write_only=True)
+                if r:
+                    accepted.append(expected_payload(pl, dyn, L, False))
+                elif i < 3:
+                    res.fail(P + "/write-refused-with-room", "burst %d: write() number %d into an empty TX FIFO returned %r" % (rnd, i + 1, r))
+            tx.ce_pin = True
+            sim.advance(25 * MS)
+            tx.ce_pin = False
+            got = []
+            for _ in range(4):
+                if not rx.available():
+                    break
+                got.append(bytes(rx.read()))
+            if got != accepted:
+                res.fail(P + "/received-payloads-differ", "burst %d: %d write(write_only=True) calls, accepted %r; CE raised; peer read %r" % (
+                    rnd, k, accepted, got))
+            tx.flush_tx()
+            tx.clear_status_flags()
+    except SimHorizon:
+        res.fail(P + "/send-does-not-terminate", "write burst")
+    except Exception as e:  # noqa: BLE001
+        res.fail(exc_signature(P + "/raises", e), repr(e))
+    for chip in (T, R):
+        if chip.illegal:
+            res.fail(P + "/illegal-spi", "%s: %s" % (chip.name, chip.illegal[0]))
+    res.nontrivial = max(case["bursts"]) >= 2
+    res.label("write-burst", "write-burst-overfull" if max(case["bursts"]) > 3 else "write-burst-fits")
+    return res
+
+
 def run_case(case, prefix=None):
     P = prefix or PREFIX
+    if case.get("burst"):
+        return run_write_burst(case, P)
     if case.get("threaded"):
         return run_threaded(case, P)
     if case.get("ack_roleswap"):
@@ -609,7 +667,21 @@ def _ack_roleswap_cases(drv="full", peer="full"):
     return gen
 
 
+def _burst_cases(drv="full", peer="full"):
+    def gen():
+        for b1 in range(1, 6):
+            for b2 in (1, 3, 4):
+                for aa in ((True, False) if "lite" not in (drv, peer) else (True,)):  # rf24_lite has no auto_ack switch
+                    for dyn, L in ((True, 32), (False, 32), (False, 5)):
+                        for spi in (8, 100):
+                            yield {"burst": True, "drv": drv, "peer": peer, "bursts": [b1, b2], "aa": aa, "dyn": dyn, "L": L, "a0": "a1b2c3d4e5",
+                                   "lens": [1, 5, 32, 7, 13], "mcu": {"spi": spi, "jit": 0, "seed": b1}}
+    return gen
+
+
 def parts(tier):
     if tier == "quick":
-        return [Part("ack-payload-role-swap", "enum", _ack_roleswap_cases(), exhaustive=True), Part("generated", "gen", strategy, n=3000), Part("long-lists-threaded-receiver", "gen", threaded_strategy, n=400)]
-    return [Part("ack-payload-role-swap", "enum", _ack_roleswap_cases(), exhaustive=True), Part("generated", "gen", strategy, n=150000), Part("long-lists-threaded-receiver", "gen", threaded_strategy, n=5000)]
+        return [Part("ack-payload-role-swap", "enum", _ack_roleswap_cases(), exhaustive=True),
+                Part("write-only-bursts", "enum", _burst_cases(), exhaustive=True), Part("generated", "gen", strategy, n=3000), Part("long-lists-threaded-receiver", "gen", threaded_strategy, n=400)]
+    return [Part("ack-payload-role-swap", "enum", _ack_roleswap_cases(), exhaustive=True), Part("write-only-bursts", "enum", _burst_cases(), exhaustive=True),
+            Part("generated", "gen", strategy, n=150000), Part("long-lists-threaded-receiver", "gen", threaded_strategy, n=5000)]
